@@ -15,7 +15,7 @@ WEIGHTS = {"small_scope": 24, "mixed": 26, "planted3sat": 6, "threshold3sat": 12
 
 
 def run(ctx, budget):
-    S.run_prop(ctx, "C02", budget, WEIGHTS, n_quick=16000)
+    S.run_prop(ctx, "C02", budget, WEIGHTS, n_quick=12000)
 
 
 def replay(ctx, body):
